@@ -279,6 +279,22 @@ class Exec(CMixin, ExprMixin, StmtMixin, CallMixin):
                 if e is False:
                     raise CannotBind('precondition %r of %s is literally false (vacuous contract)' % (r, contract.name))
                 st.assume(zbool(e))
+            # ghost instantiation: a callee contract that holds for every interpretation of an uninterpreted ghost function is
+            # used with one chosen interpretation.  Only the shape  forall(lambda ...: G(...) == expr)  with G declared
+            # uninterpreted (spec without definition) and not occurring in expr is accepted -- a definition, not an assumption.
+            for gname, text in (getattr(contract, 'ghost_defs', None) or {}).items():
+                tree = ast.parse(text, mode='eval').body
+                ok = (isinstance(tree, ast.Call) and getattr(tree.func, 'id', '') == 'forall' and isinstance(tree.args[0], ast.Lambda)
+                      and isinstance(tree.args[0].body, ast.Compare) and len(tree.args[0].body.ops) == 1
+                      and isinstance(tree.args[0].body.ops[0], ast.Eq) and isinstance(tree.args[0].body.left, ast.Call)
+                      and getattr(tree.args[0].body.left.func, 'id', '') == gname
+                      and all(isinstance(a_, ast.Name) for a_ in tree.args[0].body.left.args)
+                      and gname not in [getattr(n_, 'id', None) for n_ in ast.walk(tree.args[0].body.comparators[0])])
+                if not ok:
+                    raise CannotBind('ghost definition of %s in %s is not of the form forall(lambda ...: %s(...) == expr)'
+                                     % (gname, contract.name, gname))
+                st.assume(zbool(self.eval_spec(text, st)))
+                self.notes.add('ghost function %s instantiated: %s' % (gname, text))
         self.entry_pc_len = len(st.pc)
         exc = None
         try:
